@@ -11,6 +11,7 @@ the thread stress of the correspondence check exercises — no theorem can exhib
 -/
 import RubatoProofs.Lemmas.Shape
 import RubatoModel.Fft
+import RubatoModel.Generated
 
 set_option linter.unusedSectionVars false
 set_option linter.unusedVariables false
@@ -95,5 +96,18 @@ theorem async_instances_independent (sys : Nat → AState ρ σ) (sched : List (
 /-- non-vacuity: a two-instance schedule with interleaved calls -/
 example : proj 1 (runSystem (fun (s : Nat) (op : Nat) => (s + op, s * op)) (fun _ => 1) [(0, 5), (1, 2), (0, 7), (1, 3)]).2
     = [1 * 2, 3 * 3] := by decide
+
+end Rubato.C18
+
+namespace Rubato.C18
+
+/-- tie G9 (syntactic, regenerated on every run): the non-test code of the crate contains no construct that creates or
+mutates state living outside a resampler instance — no `static mut`, `thread_local!`/`lazy_static!`, `Once*`/`Lazy*`
+cells, atomics or locks, interior-mutability cells, writes to the floating-point control register, or process-wide setters.
+(What the dependencies realfft/rustfft and `is_x86_feature_detected!` do inside is exercised by the thread stress of the
+correspondence run, not covered here.) -/
+theorem no_ambient_state_constructs :
+    ∀ e ∈ Rubato.Gen.Ambient.ambientStateTable, e.2 = 0 := by
+  decide
 
 end Rubato.C18
